@@ -60,7 +60,8 @@ def split_lines(rng, text):
                 lines.append("")          # an empty line is ignored
     if cur:
         lines.append(cur)
-    return lines
+    # a string literal may contain a line break: the physical lines are what is typed
+    return [part for l in lines for part in l.split("\n")]
 
 
 def strip_ansi(s):
@@ -105,6 +106,10 @@ def run(ctx):
             forms, _ = G.inject_fault(rng, G.core_program(rng, ticks=False), ticks=False)
         forms = forms + [S.app("list", S.quote(S.vsym("done")), S.lit(1), S.quote(S.vlist([S.vstr("(;|"), S.vchar("("), S.vsym("|(|")])) if False else S.lit(2))]
         texts_ = [S.render(f) for f in forms]
+        if rng.random() < 0.5:
+            # a string literal that spans a line break inside a list (the newline is part of the string), parentheses inside it
+            k = rng.randrange(len(texts_) + 1)
+            texts_ = texts_[:k] + ['(define str%d "a(b %s\n c)" )' % (rng.randint(1, 3), rng.choice(["", ")", "((", ";x"])), "(list 1 str%d)" % rng.randint(1, 3)] + texts_[k:]
         # the trace specification re-lexes the pending text at every line: keep sessions small
         texts_ = [t for t in texts_ if len(t) <= 160][:6]
         if "tick!" in " ".join(texts_) or not texts_:
@@ -126,7 +131,8 @@ def run(ctx):
         expected = []
         for o in rs:
             if o["k"] == "value" and o["v"].get("t") != "void":
-                expected.append({"ch": "out", "cs": o["printed"]})
+                for line in "".join(chr(c) for c in o["printed"]).split("\n"):      # a printed string may span lines
+                    expected.append({"ch": "out", "cs": cps(line)})
             elif o["k"] == "error":
                 expected.append({"ch": "err", "cs": cps(o["msg"])})
         for variant in range(3):
